@@ -85,6 +85,23 @@ def from_ordinal(n):
     return (y, m, rem)
 
 
+def iso_week(date):
+    """(ISO year, ISO week number) of a date."""
+    y = date[0]
+    doy = ordinal(date) - ordinal((y, 1, 1)) + 1
+    wd = weekday(date) + 1  # 1 = Monday
+    w = (doy - wd + 10) // 7
+
+    def weeks_in(year):
+        p = lambda yy: (yy + yy // 4 - yy // 100 + yy // 400) % 7
+        return 53 if p(year) == 4 or p(year - 1) == 3 else 52
+    if w < 1:
+        return (y - 1, weeks_in(y - 1))
+    if w > weeks_in(y):
+        return (y + 1, 1)
+    return (y, w)
+
+
 def weekday(date):
     """0 = Monday."""
     return (ordinal(date) - 1) % 7
@@ -566,6 +583,15 @@ class Evaluator:
             return guard(lambda a: isdate(a[0]) and isinstance(a[1], tuple) and a[1][0] == "months", add_months)
         if name == "with_day" and n == 2:
             return guard(lambda a: isdate(a[0]) and isinstance(a[1], int), lambda args, fn: ymd_opt(args[0][0], args[0][1], args[1]))
+        if name == "iso_week" and n == 1:
+            return guard(d0, lambda args, fn: ("isoweek",) + iso_week(args[0]))
+        isiw = lambda a: isinstance(a[0], tuple) and len(a[0]) == 3 and a[0][0] == "isoweek"
+        if full.endswith("IsoWeek::week") and n == 1:
+            return guard(isiw, lambda args, fn: args[0][2])
+        if full.endswith("IsoWeek::week0") and n == 1:
+            return guard(isiw, lambda args, fn: args[0][2] - 1)
+        if full.endswith("IsoWeek::year") and n == 1:
+            return guard(isiw, lambda args, fn: args[0][1])
         if name == "weekday" and n == 1:
             return guard(d0, lambda args, fn: weekday(args[0]))
         if name == "index" and n == 2:
